@@ -22,7 +22,9 @@ Next ==
        [] e.op \in {"Get", "EntityWithName"} ->
             /\ Report("MapRule", e.ret = (IF Has(e.k) THEN m[e.k] ELSE "notfound")) /\ m' = m
        [] e.op \in {"Delete", "DeleteEntity"} -> m' = Del(e.k)
-       [] e.op = "Keys" -> /\ Report("ListRule", SetOf(e.list) = {k \in DOMAIN m : k \in RawKey}) /\ m' = m
+       [] e.op = "Keys" -> /\ Report("ListRule", SetOf(e.list) = {k \in DOMAIN m : k \in RawKey})
+                           \* listing by suffix is the same listing, filtered: every key under each of its suffixes, nothing else
+                           /\ Report("ListRule", e.sufok) /\ m' = m
        [] e.op = "Entities" -> /\ Report("ListRule", SetOf(e.list) = {k \in DOMAIN m : k \notin RawKey}) /\ m' = m
        [] OTHER -> m' = m
   /\ l' = l + 1
